@@ -81,6 +81,17 @@ def _g_pc(r, pre):
     C02.value_rules(r, pre)
 
 
+def _g_tuple(r, pre):
+    from .props import C02
+    if (pre + "C02-TUP") not in r.rep.counts:      # already covered when the pc group ran
+        C02.tuple_rule(r, pre)
+
+
+def _g_default_search(r, pre):
+    from .props import C01
+    C01.value_rules(r, pre)
+
+
 def _g_alphabet(r, pre):
     check_alphabet(r, pre + "ALPHABET")
 
@@ -119,7 +130,10 @@ GROUPS = {
     "functional-pdist": ({"pyrepseq.distance.pdist", "pyrepseq.distance.cdist"}, set(), _g_functional_pdist, {"C08"}),
     "tcr-metric": ({T + "TcrLevenshtein." + m for m in ("__init__", "calc_cdist_matrix", "_calc_cdist_matrix_for_column", "_expand_v_gene_cdrs", "_get_columns_to_compare")}
                    | {B + "TcrMetric.calc_pdist_vector", B + "TcrMetric.calc_cdist_matrix"}, set(), _g_tcr_metric, {"C09"}),
-    "pc": ({"pyrepseq.stats.pc", "pyrepseq.stats.pc_n", "pyrepseq.stats.pc_joint", "pyrepseq.util.convert_tuple_to_dataframe_if_necessary"}, set(), _g_pc, {"C02"}),
+    "pc": ({"pyrepseq.stats.pc", "pyrepseq.stats.pc_n", "pyrepseq.stats.pc_joint"}, set(), _g_pc, {"C02"}),
+    "tuple-converter": ({"pyrepseq.util.convert_tuple_to_dataframe_if_necessary"}, set(), _g_tuple, {"C02"}),
+    # (the other neighbour-search properties analyse their own modes of the same engines; only a property that *calls* the default search depends on it)
+    "default-search": ({"pyrepseq.nn.nearest_neighbor"}, set(), _g_default_search, {"C01", "C03", "C04", "C07", "C10", "C11", "C20"}),
     "alphabet": (set(), {"pyrepseq.io.aminoacids", "pyrepseq.io._aminoacids_set"}, _g_alphabet, set()),
     "ensure-numpy": ({"pyrepseq.util.ensure_numpy"}, set(), _g_ensure_numpy, set()),
     "edit-neighbours": ({"pyrepseq.distance.levenshtein_neighbors", "pyrepseq.distance.hamming_neighbors"}, set(), _g_neighbours, {"C12"}),
@@ -200,6 +214,23 @@ def check_ensure_numpy(r, rule):
     q = "pyrepseq.util.ensure_numpy"
     if q not in r.P.functions:
         raise AnalysisBroken(f"{q} not found (anchor vanished)")
+    # lints first (recognisably wrong whatever surrounds them): the result is reordered, thinned out or converted to another element type
+    from .terms import is_const, show, strip_all
+    from .rules import where_of
+    s = r.A.summary(q)
+    r.rep.analysed(q)
+    REORDER = {"sort_index", "sort_values", "sort", "argsort", "unique", "drop_duplicates", "dropna", "sample", "shuffle"}
+    OBJ = {("glob", "builtins.object"), ("glob", "builtins.str"), ("glob", "numpy.object_"), ("glob", "numpy.str_")}
+    for e in s.events_of("call"):
+        c = strip(e["term"])
+        f = strip(c[1])
+        nm = f[2] if head(f) == "attr" else f[1].rsplit(".", 1)[1] if head(f) == "glob" else None
+        if nm in REORDER or (head(f) == "glob" and f[1] in ("builtins.sorted", "builtins.set", "builtins.reversed")):
+            r.rep.ob(rule, q, False, "ensure_numpy keeps every element at its position", where_of(r.P, s.func, e.node), expected="no reordering / selection", found=show(c, 80), key=f"reorders {nm}", lint=True)
+        dt = dict(c[3]).get("dtype") if nm in ("array", "asarray", "to_numpy") else (c[2][0] if nm == "astype" and c[2] else dict(c[3]).get("dtype") if nm == "astype" else None)
+        if dt is not None and strip(dt) not in OBJ and not (is_const(strip(dt)) and strip(dt)[2] in (None, "object", "O", "str", "U")):
+            r.rep.ob(rule, q, False, "ensure_numpy keeps the elements' values (no conversion to another element type)", where_of(r.P, s.func, e.node), expected="no dtype / astype conversion",
+                     found=show(c, 80), key=f"converts {nm}", lint=True)
     eq = Equiv(rewrites=std_rewrites(), modelled={"numpy.array", "numpy.asarray", "builtins.type", "builtins.isinstance", ".to_numpy"})
     compare_function(r, rule, q, ENSURE_NUMPY_SPEC, "ensure_numpy returns the elements of its argument, in order and unchanged, as a positional array "
                      "(Series.to_numpy(), an ndarray as it is, np.array(anything else))", eq=eq, key="ensure_numpy")
